@@ -828,8 +828,8 @@ func schedulePhase(r *vk.Run, raceBin string, workerBudget time.Duration) map[st
 		if !v.Stable {
 			r.HarnessError("unstable schedule violation (same schedule did not fail 3x): %s %s", v.Scenario, v.Class)
 		}
-		if shown[v.Class]++; shown[v.Class] > 8 {
-			continue // the 8 smallest scenarios per class are reported; the count of the others is in the detail
+		if shown[v.Class]++; shown[v.Class] > 4 {
+			continue // the 4 smallest scenarios per class are reported; the count of the others is in the detail
 		}
 		r.Violation(fmt.Sprintf("sched[%s]:%s", v.Scenario, v.Class), map[string]any{"violation": v, "scenario_spec": v.Spec, "schedule": v.Schedule,
 			"scenarios_violating_with_this_class": perClass[v.Class]})
